@@ -171,6 +171,8 @@ static int verif_atoi(const char *s)
 static size_t verif_strlen(const char *s)
 {
 	size_t n = 0;
+	/* strings the harness declared (terminator written by the declarer, no NUL before it): the declared length */
+	VERIF_STR_TRY(0) VERIF_STR_TRY(1) VERIF_STR_TRY(2) VERIF_STR_TRY(3)
 	while (s[n] != 0) n++;
 	return n;
 }
